@@ -2,8 +2,8 @@
    Only statements, closed by [exact lemma], with Print Assumptions beneath. *)
 From Coq Require Import String List NArith ZArith Bool.
 From J5V.lib Require Import Text Outcome.
-From J5V.model Require Import BclLexer BclParser BclErrpos.
-From J5V.proofs Require Import BclPosProofs BclLexerProofs BclParserProofs BclErrposProofs BclGenProofs BclBytesProofs.
+From J5V.model Require Import BclLexer BclParser BclErrpos BclErrposText BclToFile BclFmt.
+From J5V.proofs Require Import BclPosProofs BclLexerProofs BclParserProofs BclErrposProofs BclGenProofs BclBytesProofs BclParseBytesProofs BclToFileProofs BclFragWfProofs BclDepthProofs BclErrposTextProofs.
 Import ListNotations.
 
 (* [valid_pos data p]: p is the (line, column) of a rune of the input or of its end.
@@ -81,6 +81,13 @@ Theorem C11_render_total : forall lines context ds, is_panic (human_all lines co
 Proof. exact human_all_no_panic. Qed.
 Print Assumptions C11_render_total.
 
+(* ... and the text itself: ErrorsWithSource.HumanString(context) as bytes (Position / LIT lines, context lines
+   with %03d numbers and tabs widened, the caret line, Message, the ----- separator), built from the skeleton's
+   result, is always produced — for any diagnostics against any source bytes *)
+Theorem C11_render_text_total : forall input context ds, exists t, human_text_bytes input context ds = Ok t.
+Proof. exact human_text_bytes_ok. Qed.
+Print Assumptions C11_render_text_total.
+
 Theorem C11_full : C11_full_statement.
 Proof.
   intros data ff. split; [|split].
@@ -91,6 +98,63 @@ Proof.
   - exact human_all_no_panic.
 Qed.
 Print Assumptions C11_full.
+
+(* ---- the same on the Go string ------------------------------------------------------------------- *)
+(* the property at full strength over ALL byte strings (ParseFile(string(input)), invalid UTF-8 included;
+   the lexer works on []rune(input) = utf8_decode input): totality, tree or diagnostics, every diagnostic
+   and node position inside the input read as strings.Split(input, "\n") on bytes (0 <= line < #lines,
+   0 <= column <= #runes of that byte line) with start <= end, mode agreement, and rendering against the
+   byte lines never fails *)
+Definition C11_full_statement_bytes : Prop :=
+  forall (input : list N) (ff : bool),
+    (exists p, parse_file input ff = Ok p /\
+       ((exists body, ptree p = Some body) /\ pdiags p = [] \/ pdiags p <> []) /\
+       Forall (diag_inside_bytes input) (pdiags p) /\
+       (forall body, ptree p = Some body -> Forall (node_inside_bytes input) (flat_map stmt_nodes body))) /\
+    (match parse_file input true, parse_file input false with
+     | Ok p1, Ok p2 => hd_error (pdiags p1) = hd_error (pdiags p2)
+     | _, _ => False
+     end) /\
+    (forall context ds, is_panic (human_bytes input context ds) = false).
+
+Theorem C11_full_bytes : C11_full_statement_bytes.
+Proof. exact parse_file_full_bytes. Qed.
+Print Assumptions C11_full_bytes.
+
+(* where Go indexes bytes with a rune column (humanString's errLine[:column]): a column inside the
+   input never exceeds the BYTE length of its line either *)
+Theorem C11_column_within_line_bytes : forall input p, inside_bytes input p ->
+  exists l, nth_error (split_on 10 input) (Z.to_nat (fst p)) = Some l /\ (snd p <= Z.of_nat (length l))%Z.
+Proof. exact inside_bytes_col_le_bytes. Qed.
+Print Assumptions C11_column_within_line_bytes.
+
+(* ... and it is the position of a byte offset of the Go string: of a byte prefix ending at a rune
+   boundary of []rune(input) (P pre = the (line, column) reached after the runes pre) *)
+Theorem C11_position_is_byte_offset : forall input p, valid_pos (utf8_decode input) p ->
+  exists bpre bx, input = bpre ++ bx /\ p = P (utf8_decode bpre).
+Proof. exact valid_pos_byte_offset. Qed.
+Print Assumptions C11_position_is_byte_offset.
+
+(* fragmentsToFile's only index expression, fragments[len(fragments)-1], is in bounds: the function
+   with that index as an explicit Panic site returns exactly what the model's fragments_to_file
+   returns (whose `last ... None` arm is therefore dead) *)
+Theorem C11_to_file_index_in_bounds : forall fs, fragments_to_file_go fs = Ok (fragments_to_file fs).
+Proof. exact fragments_to_file_go_ok. Qed.
+Print Assumptions C11_to_file_index_in_bounds.
+
+(* the recursion of popValue (the only recursive routine of lexer, walker, fragmentsToFile, humanString) is
+   bounded: every array value of every file the walker accepts nests at most maxValueDepth deep, and the
+   constant of the code lies between 16 and 100000 (proofs/BclDepthProofs.v also evaluates the guard of the
+   code against the model's pop_value around the constant and the whole parser exactly at it) *)
+Theorem C11_array_nesting_bounded : forall data fs, collect_fragments data = Ok fs ->
+  Forall (fun f => match f with FAssign a => (vdepth (avalue a) <= max_value_depth)%N | _ => True end) fs.
+Proof. exact accepted_values_nest_within_bound. Qed.
+Print Assumptions C11_array_nesting_bounded.
+
+Theorem C11_nesting_bound_in_range :
+  N.leb 16 max_value_depth && N.leb max_value_depth 100000 = true /\ Z.of_N max_value_depth = J5V.gen.BclDepthGen.max_value_depth.
+Proof. exact max_value_depth_in_range. Qed.
+Print Assumptions C11_nesting_bound_in_range.
 
 (* the byte-level entry point is the rune-level one after []rune(input) *)
 Theorem C11_parse_file_is_parse_runes : forall input ff,
